@@ -331,6 +331,17 @@ func c14Run(c *C) {
 			return
 		}
 	}
+	// a writer that accepts every byte of a call and reports its error with the full count (legal for an io.Writer:
+	// e.g. the connection broke right behind the last byte): the error still belongs to the caller
+	for j := 1; j <= nWrites; j++ {
+		w := &recWriter{failAt: j, err: writerErr, full: true}
+		r, _ := c14Exec(p, 2, 0, w)
+		c.Eval(1)
+		if !errors.Is(r.rawErr, writerErr) {
+			c.Fail("writer-error-not-returned", D{"files": p.files, "writer_fails_at_write": j, "writes_of_a_good_run": nWrites, "error": r.err, "why": "the writer returned (len(p), err): all bytes accepted AND an error"})
+			return
+		}
+	}
 	// a context that must be refused (invalid key name / invalid key in the set's globals): all four entry points refuse it alike
 	for variant := 0; variant < 2; variant++ {
 		var errs [4]string
